@@ -83,14 +83,44 @@ def mutants(data, dataoff, rng, n):
     return out
 
 
+def systematic_mutants(data, dataoff, limit=160):
+    """every 2 byte aligned field of the first 'limit' header bytes: value +1, -1, doubled, halved (both byte orders treated alike:
+    the low and the high byte are each incremented); fields that size codec blocks, counts and chunk lengths live here"""
+    hdr = max(16, min(dataoff if dataoff > 0 else 64, len(data), limit))
+    out = []
+    for off in range(0, hdr - 1, 2):
+        for kind in range(5):
+            b = bytearray(data)
+            if kind == 0:
+                b[off] = (b[off] + 1) & 0xFF
+            elif kind == 1:
+                b[off] = (b[off] - 1) & 0xFF
+            elif kind == 2:
+                b[off + 1] = (b[off + 1] + 1) & 0xFF
+            elif kind == 3:
+                v = b[off] | (b[off + 1] << 8)
+                v = (v * 2) & 0xFFFF
+                b[off], b[off + 1] = v & 0xFF, v >> 8
+            else:
+                v = b[off] | (b[off + 1] << 8)
+                v = v // 2
+                b[off], b[off + 1] = v & 0xFF, v >> 8
+            if bytes(b) != data:
+                out.append(bytes(b))
+    return out
+
+
 CALLS = ["read 0 s f 7", "read 0 i i 12", "read 0 f f 3", "read 0 d i 24", "read 0 s i 5000", "read 0 f f 100000", "seek 0 0 0", "seek 0 3 0", "seek 0 -1 2", "seek 0 2 1", "seek 0 0 2", "seek 0 5 16",
          "seek 0 1000000 0", "seek 0 0 17", "getstr 0 1", "getstr 0 4", "info 0", "calc 0 CALC_SIGNAL_MAX", "calc 0 CALC_NORM_MAX_ALL_CHANNELS", "calc 0 GET_SIGNAL_MAX", "calc 0 GET_MAX_ALL_CHANNELS",
          "chit 0 0 null", "chget 0 0 -1", "chnext 0 0", "chget 0 0 2", "chit 0 0 41424344", "chget 0 0 -1", "errq 0", "cmd 0 GET_NORM_FLOAT 0", "read 0 r i 64"]
 
 
-def scenarios(S, seeds, rng, per_seed, routes=("vio",), ncalls=12):
+def scenarios(S, seeds, rng, per_seed, routes=("vio",), ncalls=12, systematic=False):
     for fmt, ch, data, do in seeds:
-        for m in mutants(data, do, rng, per_seed):
+        ms = mutants(data, do, rng, per_seed)
+        if systematic:
+            ms = ms + systematic_mutants(data, do)
+        for m in ms:
             rt = rng.choice(routes)
             S.scn(fmt="0x%x" % fmt, ch=ch, kind="c03", relax=1, route=rt, nodata=1)
             S.add("file 1 hex %s" % (m.hex() if m else "-"))
